@@ -12,6 +12,20 @@ use futures_core::Stream;
 use crate::cuts::{Cut, Op, OpRes, RetEv, View};
 use crate::script::{Child, SFut, SStream};
 
+/// An iterator over `it`'s items whose `size_hint` is exact (kind 0), has no upper bound (kind 1: `from_fn`), or
+/// over-estimates the upper bound by two (kind 2: chained with a filter that lets nothing through).  All three are
+/// valid `Iterator`s; `extend` / `from_iter` size their reservation from the hint.
+fn hinted<'a, T: 'a, I: Iterator<Item = T> + 'a>(it: I, kind: u8) -> Box<dyn Iterator<Item = T> + 'a> {
+    match kind {
+        1 => {
+            let mut it = it;
+            Box::new(std::iter::from_fn(move || it.next()))
+        }
+        2 => Box::new(it.chain((0..2).filter(|_| false).map(|_| -> T { unreachable!() }))),
+        _ => Box::new(it),
+    }
+}
+
 fn key_int<K: std::fmt::Debug>(k: &K) -> i64 {
     let s = format!("{:?}", k);
     let digits: String = s.chars().filter(|c| c.is_ascii_digit()).collect();
@@ -73,17 +87,17 @@ impl Cut for FutureGroupCut {
                 self.group().reserve(n);
                 OpRes::Unit
             }
-            Op::Extend(cs) => {
+            Op::Extend(cs, kind) => {
                 // `extend` does not return keys and `Key` has no public constructor:
                 // members added this way are reported with key -1 ("unnamed").
                 let n = cs.len();
-                self.group().extend(cs.into_iter().map(|c| SFut(Child::new(c))));
+                self.group().extend(hinted(cs.into_iter().map(|c| SFut(Child::new(c))), kind));
                 OpRes::Keys(vec![-1; n])
             }
-            Op::FromIter(cs) => {
+            Op::FromIter(cs, kind) => {
                 // `FromIterator`: the group the caller starts with is built by `collect()`
                 let n = cs.len();
-                let g: FutureGroup<SFut> = cs.into_iter().map(|c| SFut(Child::new(c))).collect();
+                let g: FutureGroup<SFut> = hinted(cs.into_iter().map(|c| SFut(Child::new(c))), kind).collect();
                 self.g = match self.g {
                     FG::Plain(_) => FG::Plain(Box::new(g)),
                     FG::Keyed(_) => FG::Keyed(Box::new(g.keyed())),
@@ -172,10 +186,10 @@ impl Cut for StreamGroupCut {
                 self.group().reserve(n);
                 OpRes::Unit
             }
-            Op::Extend(_) => OpRes::Unsupported,
-            Op::FromIter(cs) => {
+            Op::Extend(..) => OpRes::Unsupported,
+            Op::FromIter(cs, kind) => {
                 let n = cs.len();
-                let g: StreamGroup<SStream> = cs.into_iter().map(|c| SStream(Child::new(c))).collect();
+                let g: StreamGroup<SStream> = hinted(cs.into_iter().map(|c| SStream(Child::new(c))), kind).collect();
                 self.g = match self.g {
                     SG::Plain(_) => SG::Plain(Box::new(g)),
                     SG::Keyed(_) => SG::Keyed(Box::new(g.keyed())),
